@@ -99,7 +99,7 @@ def run(ctx):
         return
     ctx.diff(area="struct", driver="drv_c09", n={"quick": 120000, "thorough": 6000000},
              trivial=lambda l, o: o in ("err", "ok -"),
-             tagger=lambda l, o: "struct:" + o.split(" ", 1)[0],
+             tagger=lambda l, o: ("struct:" + o.split(" ", 1)[0]) if l[:1] in "sf" else None,
              theorem="C09.parse_render_partial / parse_no_panic / precedence_table are about Eval.parseLoop; the "
                      "implementation builds a different tree (or fails differently) than the model on this input")
     _wf(ctx, {"quick": 30000, "thorough": 1500000})
